@@ -117,12 +117,14 @@ func (ch *Channel) run() {
 
 	select {
 	case err = <-readerDone:
+		verifPoint("ch.run.readerDone", ch)
 		ch.rwc.Close()
 
 		close(writerTerminate)
 		<-writerDone
 
 	case <-ch.ctx.Done():
+		verifPoint("ch.run.ctxDone", ch)
 		close(writerTerminate)
 		<-writerDone
 
@@ -132,6 +134,7 @@ func (ch *Channel) run() {
 
 	ch.ctxCancel()
 
+	verifPoint("ch.run.beforeCloseEvent", ch)
 	ch.node.pushEvent(&EventChannelClose{
 		Channel: ch,
 		Error:   err,
@@ -142,10 +145,12 @@ func (ch *Channel) run() {
 func (ch *Channel) runReader() error {
 	// wait client here, in order to allow the writer goroutine to start
 	// and allow clients to write messages before starting listening to events
+	verifPoint("ch.reader.beforeOpen", ch)
 	ch.node.pushEvent(&EventChannelOpen{ch})
 
 	for {
 		fr, err := ch.frameWriter.Read()
+		verifPoint("ch.reader.afterRead", ch)
 		if err != nil {
 			var eerr frame.ReadError
 			if errors.As(err, &eerr) {
@@ -169,6 +174,7 @@ func (ch *Channel) runWriter(writerTerminate chan struct{}) error {
 	for {
 		select {
 		case what := <-ch.chWrite:
+			verifPoint("ch.writer.dequeue", ch)
 			switch wh := what.(type) {
 			case message.Message:
 				err := ch.streamWriter.Write(wh)
@@ -200,6 +206,7 @@ func (ch *Channel) Endpoint() Endpoint {
 }
 
 func (ch *Channel) write(what interface{}) {
+	verifPoint("ch.enqueue", ch)
 	select {
 	case ch.chWrite <- what:
 	case <-ch.ctx.Done():
